@@ -115,7 +115,8 @@ package fscache
 //@   only_calls c.remoteFS : ReadDir IsExist IsFile IsDir ReadFile Reader Lstat Filespace
 //@   trace Filespace.IsExist as QB bind bq when $recv == c.bufferFS
 //@   trace Filespace.IsExist as QR bind rq when $recv == c.remoteFS
-//@   at_call Filespace.IsExist requires ($recv == c.bufferFS || $recv == c.remoteFS) && $0 == cleanPath(old(src))
+//@   at_call Filespace.IsExist requires ($recv == c.bufferFS || ($recv == c.remoteFS && bound(bq))) && $0 == cleanPath(old(src))
+//@   ensures bound(bq)
 // buffer first; a node of the remote that no pending operation touched is visible
 //@   ensures bq ==> result
 //@   ensures !bq && !rq ==> !result
@@ -128,7 +129,8 @@ package fscache
 //@   only_calls c.remoteFS : ReadDir IsExist IsFile IsDir ReadFile Reader Lstat Filespace
 //@   trace Filespace.IsFile as QB bind bq when $recv == c.bufferFS
 //@   trace Filespace.IsFile as QR bind rq when $recv == c.remoteFS
-//@   at_call Filespace.IsFile requires ($recv == c.bufferFS || $recv == c.remoteFS) && $0 == cleanPath(old(src))
+//@   at_call Filespace.IsFile requires ($recv == c.bufferFS || ($recv == c.remoteFS && bound(bq))) && $0 == cleanPath(old(src))
+//@   ensures bound(bq)
 // buffer first; a node of the remote that no pending operation touched is visible
 //@   ensures bq ==> result
 //@   ensures !bq && !rq ==> !result
@@ -141,7 +143,8 @@ package fscache
 //@   only_calls c.remoteFS : ReadDir IsExist IsFile IsDir ReadFile Reader Lstat Filespace
 //@   trace Filespace.IsDir as QB bind bq when $recv == c.bufferFS
 //@   trace Filespace.IsDir as QR bind rq when $recv == c.remoteFS
-//@   at_call Filespace.IsDir requires ($recv == c.bufferFS || $recv == c.remoteFS) && $0 == cleanPath(old(src))
+//@   at_call Filespace.IsDir requires ($recv == c.bufferFS || ($recv == c.remoteFS && bound(bq))) && $0 == cleanPath(old(src))
+//@   ensures bound(bq)
 // buffer first; a node of the remote that no pending operation touched is visible
 //@   ensures bq ==> result
 //@   ensures !bq && !rq ==> !result
@@ -201,16 +204,20 @@ package fscache
 //@   loop 1 invariant CInv(c)
 //@   loop 1 trace_step isexist && rmerr == nil : ^ISEXIST RM $
 //@   loop 1 trace_step !isexist : ^ISEXIST $
+//@   loop 1 trace_step rmerr != nil : ^$
 //@   loop 2 invariant CInv(c) && foralls(k, has(c.changes.remove, k) ==> visitedIn(1, k))
 //@   loop 2 trace_step isexist && rmallerr == nil : ^ISEXIST RMALL $
 //@   loop 2 trace_step !isexist : ^ISEXIST $
+//@   loop 2 trace_step rmallerr != nil : ^$
 //@   loop 3 invariant CInv(c) && foralls(k, has(c.changes.remove, k) ==> visitedIn(1, k)) && foralls(k, has(c.changes.removeAll, k) ==> visitedIn(2, k))
 //@   loop 3 trace_step isdir && mkerr == nil : ^ISDIR MK $
 //@   loop 3 trace_step !isdir : ^ISDIR $
+//@   loop 3 trace_step mkerr != nil : ^$
 //@   loop 4 invariant CInv(c) && foralls(k, has(c.changes.remove, k) ==> visitedIn(1, k)) && foralls(k, has(c.changes.removeAll, k) ==> visitedIn(2, k)) && foralls(k, has(c.changes.mkdirAll, k) ==> visitedIn(3, k))
 //@   loop 4 trace_step isfile && mkerr == nil && cperr == nil : ^ISFILE MK COPY $
 //@   loop 4 trace_step !isfile && isdir && treeerr == nil : ^ISFILE ISDIR TREE $
 //@   loop 4 trace_step !isfile && !isdir : ^ISFILE ISDIR $
+//@   loop 4 trace_step mkerr != nil || cperr != nil || treeerr != nil : ^$
 //@   ensures err == nil ==> foralls(k, has(c.changes.remove, k) ==> visitedIn(1, k)) && foralls(k, has(c.changes.removeAll, k) ==> visitedIn(2, k)) && foralls(k, has(c.changes.mkdirAll, k) ==> visitedIn(3, k)) && foralls(k, has(c.changes.write, k) ==> visitedIn(4, k))
 //@   ensures rmerr != nil ==> err == rmerr
 //@   ensures rmallerr != nil ==> err == rmallerr
